@@ -190,6 +190,23 @@ func (u *U) Len(x *E) *E {
 	if x.Op == "array" {
 		return u.Int(int64(len(x.Args)))
 	}
+	// len(s[lo:hi]) = hi - lo for strings and slices
+	if x.Op == "slice" && x.Args[3] == nil && (x.Args[1] != nil || x.Args[2] != nil) && x.Args[0].Typ != nil {
+		isArrPtr := false
+		if pt, ok := x.Args[0].Typ.Underlying().(*types.Pointer); ok {
+			_, isArrPtr = pt.Elem().Underlying().(*types.Array)
+		}
+		if !isArrPtr {
+			hi := x.Args[2]
+			if hi == nil {
+				hi = u.Len(x.Args[0])
+			}
+			if x.Args[1] == nil {
+				return hi
+			}
+			return u.Bin(token.SUB, hi, x.Args[1], types.Typ[types.Int])
+		}
+	}
 	// arr[:] has the length of the array
 	if x.Op == "slice" && x.Args[1] == nil && x.Args[2] == nil && x.Args[0].Typ != nil {
 		if pt, ok := x.Args[0].Typ.Underlying().(*types.Pointer); ok {
